@@ -362,6 +362,19 @@ fn check(id: &str, tier: Tier) -> i32 {
         tier.name(), merged.evaluations, merged.cases, merged.nontrivial, nstates, ntrans, merged.traces,
         merged.outcomes.len(), merged.levels_completed, merged.capped, wall
     );
+    // A probe diverged: the subject keeps state between the runs of one thread, so the runs of this attempt did not see
+    // what a process per run sees. Start again with every run on a thread of its own; that attempt decides.
+    if !drive::fresh_mode() && machinery.iter().any(|m| m.starts_with("nondeterministic observation (the repetition ran on a fresh thread)")) {
+        eprintln!("NOTE: the subject keeps state between runs in one thread (e.g. {}); repeating the whole check with every run on a thread of its own", drive::trunc(&machinery[0], 240));
+        let args: Vec<String> = std::env::args().skip(1).collect();
+        return match Command::new(&exe).args(&args).env("JV_FRESH_THREAD", "1").status() {
+            Ok(st) => st.code().unwrap_or(2),
+            Err(e) => {
+                eprintln!("MACHINERY: cannot start the second attempt: {e}");
+                2
+            }
+        };
+    }
     // The driver owns every source of nondeterminism, so two different observations of one case come from the
     // subject. Alone that cannot be attributed to the property (machinery exit); next to established violations
     // it is reported as a note and the violations stand.
@@ -398,7 +411,7 @@ fn observe(file: &str) {
     drive::silence_panics();
     let Some(mut doc) = std::fs::read(file).ok().and_then(|b| serde_json::from_slice::<serde_json::Value>(&b).ok()) else { return };
     let cases: Vec<drive::Case> = serde_json::from_value(doc["cases"].clone()).unwrap_or_default();
-    let observed: Vec<String> = cases.iter().map(|c| format!("{:016x}", ctx::h64(&serde_json::to_string(&drive::run(c)).unwrap_or_default()))).collect();
+    let observed: Vec<String> = cases.iter().map(|c| format!("{:016x}", ctx::h64(&serde_json::to_string(&drive::on_fresh_threads(|| drive::run(c))).unwrap_or_default()))).collect();
     doc["observed"] = serde_json::json!(observed);
     let _ = std::fs::write(file, serde_json::to_vec_pretty(&doc).unwrap());
     let _ = std::fs::remove_dir_all(drive::work_dir());
@@ -423,8 +436,9 @@ fn replay(file: &str) -> i32 {
     let recorded: Vec<String> = doc["observed"].as_array().map(|a| a.iter().map(|x| x.as_str().unwrap_or("").to_string()).collect()).unwrap_or_default();
     let mut same_as_recorded = !recorded.is_empty();
     for (i, c) in cases.iter().enumerate() {
-        let a = drive::run(c);
-        let b = drive::run(c);
+        // every run on a thread of its own, as a real run is a process of its own
+        let a = drive::on_fresh_threads(|| drive::run(c));
+        let b = drive::on_fresh_threads(|| drive::run(c));
         println!("case {i}: {}", c.shell());
         println!("  run 1: {}", a.brief());
         println!("  run 2: {}", b.brief());
